@@ -1142,7 +1142,10 @@ class Interp:
         return OPAQUE
 
     def call_closure(self, c, args):
-        self.scopes.append({})
+        # variables captured where the closure was written (needed when it is called from another interpreter, e.g. as an
+        # `impl Fn` argument of an inlined helper); the live scopes still take precedence for names they define
+        cap = c.get("_env")
+        self.scopes.append({k: v for k, v in cap.items() if self.lookup(k) is None} if cap else {})
         try:
             for p, a in zip(c["params"], args):
                 m = self.match(a, p)
@@ -1154,7 +1157,12 @@ class Interp:
             self.scopes.pop()
 
     def e_closure(self, e):
-        return e
+        env = {}
+        for sc in self.scopes:
+            env.update(sc)
+        c = dict(e)
+        c["_env"] = env
+        return c
 
     def e_range(self, e):
         a = self.eval(e["a"]) if e.get("a") else None
